@@ -300,6 +300,24 @@ Definition mresample_tv {B : Type} (o : B) (n0 : nat) (idx0 thr stp one : Z) : m
     | VFin => Stop
     end).
 
+(* attack(a, d, s) with a sustain Stream s: the first demand takes the first sustain value (the level the
+   decay line ends on; an empty sustain leaks StopIteration: RuntimeError), then n = len_a + len_d samples
+   need no read, then the rest of the sustain stream is passed through *)
+Inductive att_st := AInit | ALine (j : nat) | AOut (x : A) | AFin | AErr.
+Definition mattack (o : A) (n : nat) : machine A A :=
+  Machine att_st AInit (fun s =>
+    match s with
+    | AInit => Read 0 (fun x => match x with Some _ => ALine n | None => AErr end)
+    | ALine (S j) => Yield o (ALine j)
+    | ALine 0 => Read 0 (fun x => match x with Some v => AOut v | None => AFin end)
+    | AOut v => Yield v (ALine 0)
+    | AFin => Stop
+    | AErr => Raise "RuntimeError"
+    end).
+
+(* a construction that is refused: the call raises before any machine exists *)
+Definition mraise {B : Type} (e : string) : machine A B := Machine unit tt (fun _ => Raise e).
+
 (* zcross(seq, hysteresis, first_sign=0): the first loop yields 0 until an item outside the
    hysteresis region fixes the sign, then the second loop takes over the same iterator; when the
    input ends inside the first loop, the second loop asks the exhausted iterator once more *)
